@@ -77,8 +77,11 @@ static void relocate_all(World &w) {
 // ---- canonical key ----------------------------------------------------------------------------------------------
 static std::string key_of(World &w) {
   std::vector<int> all;
+  // joint rank pattern of the NON-ZERO values; zero stays distinguished because value-initialised elements
+  // (resize(n), append(n), Vector(n)) are always zero, so "equals a future value-initialised element" is observable
   for (int i = 0; i < w.K; ++i)
-    for (const T &e : w.slot[i].v()) all.push_back(E::val(e));
+    for (const T &e : w.slot[i].v())
+      if (E::val(e) != 0) all.push_back(E::val(e));
   std::sort(all.begin(), all.end());
   all.erase(std::unique(all.begin(), all.end()), all.end());
   std::vector<std::string> parts;
@@ -89,6 +92,10 @@ static std::string key_of(World &w) {
                   (int)w.m[i].ent, RawWords<V>::a(v), RawWords<V>::b(v));
     std::string s = buf;
     for (const T &e : v) {
+      if (E::val(e) == 0) {
+        s += '0';
+        continue;
+      }
       int r = (int)(std::lower_bound(all.begin(), all.end(), E::val(e)) - all.begin());
       s += (char)('a' + (r < 26 ? r : 25));
     }
@@ -295,6 +302,7 @@ int main(int argc, char **argv) {
   std::string replay;
   double deadline = 1e18;
   long maxstates = 50000000;
+  int merge_check = 0;  // self-check of the state abstraction: number of merge events whose futures are compared
   Opts o;
   long faultk = 0;
   int fault_bound = 0;  // 0 = no fault injection; n = at most n injected faults per history
@@ -315,6 +323,7 @@ int main(int argc, char **argv) {
     else if (s == "--no-alias") o.alias = false;
     else if (s == "--no-ctors") o.ctors = false;
     else if (s == "--no-overlimit") o.overlimit = false;
+    else if (s == "--merge-check") merge_check = std::atoi(nxt().c_str());
     else if (s == "--crumb") {
       std::string p = nxt();
       int fd = open(p.c_str(), O_RDWR | O_CREAT | O_TRUNC, 0644);
@@ -377,6 +386,21 @@ int main(int argc, char **argv) {
     std::reverse(h.begin(), h.end());
     return h;
   };
+
+  // multiset of successor keys of the state reached by history H (for the merge self-check)
+  auto succ_keys = [&](const std::vector<Op> &H) {
+    std::vector<std::string> ks;
+    std::vector<Op> en;
+    run_once(H, nullptr, K, L, &en, o);
+    std::vector<Op> ops2 = en;
+    for (const Op &op : ops2) {
+      RunResult rr = run_once(H, &op, K, L, nullptr, o);
+      ks.push_back(rr.nfail ? std::string("FAIL") : rr.key_after);
+    }
+    std::sort(ks.begin(), ks.end());
+    return ks;
+  };
+  long merges_checked = 0;
   {
     std::vector<Op> none;
     RunResult r0 = run_once(none, nullptr, K, L, nullptr, o);
@@ -434,6 +458,19 @@ int main(int argc, char **argv) {
         if (failure_is_fatal()) continue;  // the successor is not expanded (model and code may have diverged)
       }
       auto it = seen.find(r.key_after);
+      if (it != seen.end() && merges_checked < merge_check && it->second != (int)cur && !r.nfail) {
+        // two different histories were merged into one state: their futures must agree (soundness of the key)
+        std::vector<Op> h2 = h;
+        h2.push_back(op);
+        std::vector<Op> h1 = history(it->second);
+        if (hist_str(h1) != hist_str(h2)) {
+          ++merges_checked;
+          if (succ_keys(h1) != succ_keys(h2)) {
+            nondet = "state abstraction unsound: histories [" + hist_str(h1) + "] and [" + hist_str(h2) + "] share key " + r.key_after + " but have different successor keys";
+            break;
+          }
+        }
+      }
       if (it == seen.end()) {
         int id = (int)states.size();
         seen.emplace(r.key_after, id);
@@ -490,7 +527,7 @@ int main(int argc, char **argv) {
   );
   std::printf("\"K\":%d,\"L\":%d,\"reloc\":%d,\"states\":%zu,\"transitions\":%ld,\"max_depth\":%d,\"distinct_outcomes\":%zu,\"complete\":%s,\"violating_transitions\":%ld,\"fault_bound\":%d,\"fault_transitions\":%ld,\"max_fault_points_per_op\":%ld,\n",
               K, L, g_reloc, states.size(), transitions, maxdepth, digests.size(), complete ? "true" : "false", viol_total, fault_bound, fault_transitions, max_events);
-  std::printf("\"claims_reloc\":%s,\"static_fail\":\"%s\",\"nondeterminism\":\"%s\",\n", claims ? "true" : "false", jesc(static_fail).c_str(), jesc(nondet).c_str());
+  std::printf("\"merges_checked\":%ld,\"claims_reloc\":%s,\"static_fail\":\"%s\",\"nondeterminism\":\"%s\",\n", merges_checked, claims ? "true" : "false", jesc(static_fail).c_str(), jesc(nondet).c_str());
   std::printf("\"per_kind\":{");
   bool first = true;
   for (auto &kv : per_kind) {
